@@ -1,8 +1,6 @@
 package main
 
 import (
-	"fmt"
-	"net/http"
 	"bytes"
 	"crypto/ecdsa"
 	"crypto/ed25519"
@@ -11,6 +9,8 @@ import (
 	"crypto/x509"
 	"encoding/pem"
 	"errors"
+	"fmt"
+	"net/http"
 	"os"
 	"os/exec"
 	"path/filepath"
@@ -295,6 +295,62 @@ func init() {
 				tag = "err"
 			}
 			out = append(out, L(Sym(tag), stackSx(s.IntegrityBlock.SignatureStack)))
+		}
+		return L(out...)
+	})
+	// AddExchange refused (response header it cannot encode), the exchange repaired, added again on the SAME
+	// signer, signatures updated: the repaired exchange must be accepted and everything must verify
+	regOp("bsig_add_retry", func(a []Sx) (res Sx) {
+		defer func() {
+			if r := recover(); r != nil {
+				res = L(Sym("panic"))
+			}
+		}()
+		sigKeysOnce()
+		ver := []bver.Version{bver.VersionB1, bver.VersionB2}[a[0].Int()%2]
+		leaf := sigKeys[0]
+		chain := certurl.CertChain{{Cert: leaf.cert, OCSPResponse: []byte("ocsp")}}
+		date := time.Unix(baseDate, 0)
+		signer, err := signature.NewSigner(ver, chain, leaf.priv, mustURL("https://example.com/validity"), date, time.Hour)
+		if err != nil {
+			return L(Sym("err"))
+		}
+		mk := func(u, body string) *bundle.Exchange {
+			h := http.Header{}
+			h.Add("Content-Type", "text/plain")
+			return &bundle.Exchange{Request: bundle.Request{URL: mustURL(u), Header: http.Header{}}, Response: bundle.Response{Status: 200, Header: h, Body: []byte(body)}}
+		}
+		good, bad := mk("https://example.com/a", "aaa"), mk("https://example.com/b", "bbb")
+		out := []Sx{}
+		add := func(e *bundle.Exchange) {
+			id := "digest/mi-sha256-03"
+			if e.Response.Header.Get("Digest") == "" {
+				var err error
+				if id, err = e.AddPayloadIntegrity(ver, 16); err != nil {
+					out = append(out, Sym("integrity_err"))
+					return
+				}
+			}
+			out = append(out, Bool(signer.AddExchange(e, id) == nil))
+		}
+		add(good)
+		bad.Response.Header["X-Bad"] = []string{"caf\u00e9"} // EncodeHeader refuses it: AddExchange must fail ...
+		add(bad)
+		delete(bad.Response.Header, "X-Bad") // ... and succeed once the exchange is repaired
+		add(bad)
+		b := &bundle.Bundle{Version: ver, PrimaryURL: mustURL("https://example.com/a"), Exchanges: []*bundle.Exchange{good, bad}}
+		ns, err := signer.UpdateSignatures(nil)
+		if err != nil {
+			return L(append(out, Sym("update_err"))...)
+		}
+		b.Signatures = ns
+		v, err := signature.NewVerifier(b.Signatures, date.Add(10*time.Second), ver)
+		if err != nil {
+			return L(append(out, Sym("verifier_error"))...)
+		}
+		for _, e := range b.Exchanges {
+			r, err := v.VerifyExchange(e)
+			out = append(out, Bool(err == nil && r != nil))
 		}
 		return L(out...)
 	})
